@@ -99,12 +99,16 @@ def _md_cell(s):
 
 
 # ------------------------------------------------------------------------- csv
-def to_csv(sheets) -> str:
+def to_csv(sheets, compact=False) -> str:
+    """compact=True (or a set of sheet names): the sheet name sits in the first cell of the header row itself (a layout the CSV reader accepts too)."""
     buf = io.StringIO(newline="")
     w = csv.writer(buf, quoting=csv.QUOTE_ALL)
     for name, (hdrs, rows) in sheets.items():
-        w.writerow([name])
-        w.writerow([""] + ["" if h is None else h for h in hdrs])
+        if compact is True or (compact and name in compact):
+            w.writerow([name] + ["" if h is None else h for h in hdrs])
+        else:
+            w.writerow([name])
+            w.writerow([""] + ["" if h is None else h for h in hdrs])
         for r in rows:
             cells = ["" if canon_text(c) is None else canon_text(c) for c in r]
             if not any(cells):
@@ -215,7 +219,7 @@ def render(sheets, fmt, **kw):
     if fmt == "md":
         return to_md(sheets)
     if fmt == "csv":
-        return to_csv(sheets)
+        return to_csv(sheets, **kw)
     if fmt in ("xlsx", "xlsm"):
         return to_xlsx(sheets, **kw)
     if fmt == "xls":
